@@ -106,7 +106,7 @@ def physical_name_rule(ctx, rid, only_harvester=False):
                     if q == FARM + ".Harvester.delete_ds":
                         good = eng == "self.engine"
                     elif q == MAN + ".save_merge_ds":
-                        good = eng == "engine"
+                        good = eng in io_eng
                     else:
                         good = (eng in io_eng) if io_eng else True
                     if good:
@@ -242,7 +242,10 @@ def policy_rule(ctx, rid):
     rr = ctx.rule(rid, "overwrite policy: True -> new.combine_first(old), False -> old.combine_first(new), None -> merge no_conflicts (both siblings)", floor=6)
     prog = ctx.prog
     _policy_table(ctx, rr, rid, prog.need_func(FARM + ".Harvester.add_ds"), {"self._full_ds"}, {"new_ds"})
-    _policy_table(ctx, rr, rid, prog.need_func(MAN + ".save_merge_ds"), {"old_ds"}, {"ds"})
+    sm = prog.need_func(MAN + ".save_merge_ds")
+    olds = {n.ast.targets[0].id for n, c, nm in all_calls(ctx, sm) if nm == MAN + ".load_ds" and n.kind == "stmt" and isinstance(n.ast, ast.Assign) and isinstance(n.ast.targets[0], ast.Name)}
+    need(len(olds) == 1, "idiom changed: save_merge_ds does not bind the loaded dataset to one name")
+    _policy_table(ctx, rr, rid, sm, olds, {sm.positional[0]})
     return rr
 
 
@@ -272,6 +275,10 @@ def sync_order_rule(ctx, rid, cls="Harvester"):
     f = prog.need_func("%s.%s.%s" % (FARM, cls, mname))
     g = build_cfg(f.node)
     ctx.touch(f, g)
+    # the local that holds the merged data: what is handed to save_full_*
+    sv_names = {norm(c.args[0]) for n, c, nm in all_calls(ctx, f, g) if nm == "%s.%s.%s" % (FARM, cls, sname) and c.args and isinstance(c.args[0], ast.Name)}
+    if len(sv_names) == 1 and list(sv_names)[0] not in f.params:
+        newv = sv_names.pop()
     for mem in (NOTNONE, NONE):
         fl = Flow(g, {"sync": TRUE, "self.data_name": NOTNONE, "self." + attr: mem, "chunks": NONE, "self.chunks": NONE}).run()
         tag = "in-memory data %s" % ("present" if mem == NOTNONE else "absent")
@@ -354,10 +361,15 @@ def through_save_rule(ctx, rid):
         ctx.touch(f, g)
         fl = Flow(g, {"self.data_name": NOTNONE}).run()
         sv = [(n, c) for n, c, nm in all_calls(ctx, f, g) if nm == FARM + ".Harvester.save_full_ds" and n.id in fl.visited]
-        if sv and g.completes_before(sv[0][0].id, g.exit.id, feasible=fl.feasible) and norm(sv[0][1].args[0]) == "new_ds":
+        derived = {norm(n.ast.targets[0]) for n in g.nodes if n.kind == "stmt" and isinstance(n.ast, ast.Assign) and ("self.full_ds" in norm(n.ast.value) or "self._full_ds" in norm(n.ast.value))}
+        if sv and g.completes_before(sv[0][0].id, g.exit.id, feasible=fl.feasible) and sv[0][1].args and norm(sv[0][1].args[0]) in derived:
             rr.ok("%s saves the new dataset through save_full_ds" % mname)
-        else:
+        elif not sv or not g.completes_before(sv[0][0].id, g.exit.id, feasible=fl.feasible):
             rr.bad(ctx.finding(rid, f, f.node, "%s does not persist its result through save_full_ds(new_ds) when a data name is set" % mname, construct="no-save " + mname), "%s saves" % mname)
+        elif sv[0][1].args and norm(sv[0][1].args[0]) in ("self._full_ds", "self.full_ds", "self.last_ds"):
+            rr.bad(ctx.finding(rid, f, sv[0][1], "%s saves `%s`, not the dataset it derived" % (mname, norm(sv[0][1].args[0])), construct="no-save " + mname), "%s saves" % mname)
+        else:
+            raise AnalysisError("idiom changed: %s saves `%s`" % (mname, norm(sv[0][1].args[0]) if sv[0][1].args else None))
         if mname == "expand_dims":
             # the new dimension is labelled with the given value, whatever that value is (0, 0.0, False and '' are labels too)
             vpar = f.positional[2] if len(f.positional) > 2 else "value"
@@ -471,10 +483,16 @@ def engine_tables_rule(ctx, rid):
     sd = prog.need_func(MAN + ".save_ds")
     fam = [sd] + [x for x in ctx.res.slice([sd]) if x.module is sd.module and x is not sd and x is not aae]
     ident, loose, stores = [], [], {}
+    VALS = set()
+    for fn in fam:
+        for n in ast.walk(fn.node):
+            if isinstance(n, (ast.For, ast.comprehension)) and norm(n.iter).endswith("attrs.items()") and isinstance(n.target, ast.Tuple) and len(n.target.elts) == 2 and isinstance(n.target.elts[1], ast.Name):
+                VALS.add(n.target.elts[1].id)
+    VALS = VALS or {"val"}
     for fn in fam:
         ctx.touch(fn)
         for n in ast.walk(fn.node):
-            if isinstance(n, ast.If) and isinstance(n.test, ast.Compare) and len(n.test.ops) == 1 and isinstance(n.test.left, ast.Name) and n.test.left.id == "val":
+            if isinstance(n, ast.If) and isinstance(n.test, ast.Compare) and len(n.test.ops) == 1 and isinstance(n.test.left, ast.Name) and n.test.left.id in VALS:
                 op = n.test.ops[0]
                 cv = n.test.comparators[0]
                 if isinstance(op, ast.Is) and isinstance(cv, ast.Constant) and (cv.value is None or cv.value is True or cv.value is False):
@@ -489,11 +507,11 @@ def engine_tables_rule(ctx, rid):
     for fn in fam:
         for n in ast.walk(fn.node):
             tbl = None
-            if isinstance(n, ast.Subscript) and isinstance(n.slice, ast.Name) and n.slice.id == "val" and isinstance(n.ctx, ast.Load):
+            if isinstance(n, ast.Subscript) and isinstance(n.slice, ast.Name) and n.slice.id in VALS and isinstance(n.ctx, ast.Load):
                 tbl = n.value
-            elif isinstance(n, ast.Call) and isinstance(n.func, ast.Attribute) and n.func.attr == "get" and n.args and isinstance(n.args[0], ast.Name) and n.args[0].id == "val":
+            elif isinstance(n, ast.Call) and isinstance(n.func, ast.Attribute) and n.func.attr == "get" and n.args and isinstance(n.args[0], ast.Name) and n.args[0].id in VALS:
                 tbl = n.func.value
-            elif isinstance(n, ast.Compare) and len(n.ops) == 1 and isinstance(n.ops[0], (ast.In, ast.NotIn)) and isinstance(n.left, ast.Name) and n.left.id == "val":
+            elif isinstance(n, ast.Compare) and len(n.ops) == 1 and isinstance(n.ops[0], (ast.In, ast.NotIn)) and isinstance(n.left, ast.Name) and n.left.id in VALS:
                 tbl = n.comparators[0]
             if tbl is None:
                 continue
